@@ -190,7 +190,13 @@ func (e *Edge) DumpBitSet() string {
 		return "nil"
 	}
 	s := e.bitset.DumpAsBits()
-	return s[len(s)-int(e.bitset.Len())-1 : len(s)]
+	// one '.' is written after each 64 bit word
+	n := int(e.bitset.Len())
+	nwords := (n + 63) / 64
+	if nwords == 0 {
+		nwords = 1
+	}
+	return s[len(s)-n-nwords : len(s)]
 }
 
 /*
